@@ -24,6 +24,12 @@ pub enum St {
     Behind,
     Diverged,
     Missing,
+    // honest but unusual updates (validly signed by the owner)
+    TagRecreated,
+    TagMadeLightweight,
+    BranchRewound,
+    BranchAmended,
+    RefDeleted,
     // invalid / odd offers
     SigFlipped,
     Rekeyed,
@@ -38,6 +44,8 @@ pub enum St {
     NoSigrefs,
     GarbageBlob,
 }
+
+const UNUSUAL: &[St] = &[St::TagRecreated, St::TagMadeLightweight, St::BranchRewound, St::BranchAmended, St::RefDeleted];
 
 const TAMPERS: &[St] = &[
     St::SigFlipped, St::Rekeyed, St::RootOtherRepo, St::RootOmitted, St::NonCanonicalBlob, St::UnsignedExtraRef, St::SignedRefMoved,
@@ -182,6 +190,45 @@ impl World {
                 for n in names {
                     raw.find_reference(&n).unwrap().delete().unwrap();
                 }
+            }
+            St::TagRecreated => {
+                // refs/tags/v1 becomes an annotated tag of the commit it pointed at (same commit,
+                // different object), signed by the owner
+                let cur = fx::get_ref(&raw, &k, "refs/tags/v1").unwrap();
+                let target = raw.find_object(cur, None).unwrap().peel(git2::ObjectType::Commit).unwrap();
+                let who = git2::Signature::new("verif", "verif@localhost", &git2::Time::new(1_600_000_000, 0)).unwrap();
+                let t = raw.tag_annotation_create("v1", &target, &who, &format!("annotated-{i}-{}", rng.u32())).unwrap();
+                fx::set_ref(&raw, &k, "refs/tags/v1", t);
+                self.sign(i);
+            }
+            St::TagMadeLightweight => {
+                // two steps in one offer: annotated, signed; then lightweight again plus a new commit on master
+                let cur = fx::get_ref(&raw, &k, "refs/tags/v1").unwrap();
+                let target = raw.find_object(cur, None).unwrap().peel(git2::ObjectType::Commit).unwrap();
+                let who = git2::Signature::new("verif", "verif@localhost", &git2::Time::new(1_600_000_000, 0)).unwrap();
+                let t = raw.tag_annotation_create("v1", &target, &who, &format!("annotated-{i}-{}", rng.u32())).unwrap();
+                fx::set_ref(&raw, &k, "refs/tags/v2", t);
+                let c = fx::commit(&raw, &format!("tl-{i}-{}", rng.u32()), &[master]);
+                fx::set_ref(&raw, &k, "refs/heads/master", c);
+                self.sign(i);
+            }
+            St::BranchRewound => {
+                // `git reset --hard HEAD~1 && git push -f`, signed by the owner
+                let p = raw.find_commit(master).unwrap().parent_id(0).unwrap();
+                fx::set_ref(&raw, &k, "refs/heads/master", p);
+                self.sign(i);
+            }
+            St::BranchAmended => {
+                let p = raw.find_commit(master).unwrap().parent_id(0).unwrap();
+                let c = fx::commit(&raw, &format!("amend-{i}-{}", rng.u32()), &[p]);
+                fx::set_ref(&raw, &k, "refs/heads/master", c);
+                self.sign(i);
+            }
+            St::RefDeleted => {
+                fx::del_ref(&raw, &k, "refs/tags/v1");
+                let c = fx::commit(&raw, &format!("rd-{i}-{}", rng.u32()), &[master]);
+                fx::set_ref(&raw, &k, "refs/heads/topic", c);
+                self.sign(i);
             }
             St::SigFlipped => {
                 let c = fx::commit(&raw, &format!("sf-{i}-{}", rng.u32()), &[master]);
@@ -342,7 +389,8 @@ fn gen_scenario(rng: &mut Rng, prop: &str, idx: u64) -> Scenario {
         // every combination region: per-delegate offered state
         for s in states.iter_mut().take(nd) {
             *s = match rng.below(10) {
-                0 | 1 => St::Equal,
+                0 => St::Equal,
+                1 => *rng.pick(UNUSUAL),
                 2 | 3 => St::Ahead,
                 4 => St::Behind,
                 5 => St::Diverged,
@@ -351,12 +399,12 @@ fn gen_scenario(rng: &mut Rng, prop: &str, idx: u64) -> Scenario {
             };
         }
         for s in states.iter_mut().skip(nd) {
-            *s = *rng.pick(&[St::Equal, St::Ahead, St::Behind, St::Diverged, St::SigFlipped]);
+            *s = *rng.pick(&[St::Equal, St::Ahead, St::Behind, St::Diverged, St::SigFlipped, St::BranchRewound, St::TagRecreated]);
         }
     } else {
         // C01: 1-3 tampered namespaces (systematically cycling through the operators), rest honest
         for s in states.iter_mut() {
-            *s = *rng.pick(&[St::Equal, St::Ahead, St::Ahead]);
+            *s = if rng.chance(1, 3) { *rng.pick(UNUSUAL) } else { *rng.pick(&[St::Equal, St::Ahead, St::Ahead]) };
         }
         let k = 1 + rng.usize(3.min(n));
         for j in 0..k {
